@@ -32,7 +32,9 @@ LEVEL_NOTE = ("Lean kernel + standard axioms; hand-written model tied to the cod
 RULE = ("one case = one download of a real uploaded file (k/N/segment size incl. multi-segment and v1/v2 share layouts) after one "
         "mutation of the stored shares: byte flip in a named region (version, block_size, data_size, each offset field, block data, "
         "plaintext/crypttext hash tree, block hashes, share hashes, UEB length, UEB), header field set to an edge value, truncation "
-        "at a section boundary, swap between share numbers / files / encodings, or a server rewriting its share between reads; "
+        "at a section boundary, swap between share numbers / files / encodings, a server rewriting its share between reads, or the "
+        "consistent-forgery family (internally consistent shares of other content with the genuine or a forged UEB on m=1..N "
+        "servers, g<k genuine shares left, seeded delivery orders, two re-reads on the same node); "
         "applied to 1, N-k+1 or all shares; distinct = distinct (file, mutation, targets, read range, seed); non-trivial = the "
         "mutation changed at least one stored byte. Function-level cases: k=1 file, one share kept, one mutation, whole-file read.")
 TRUSTED = ["harness/grid.py (in-process grid, seeded scheduler, fault hook)",
@@ -270,7 +272,7 @@ def check_read(ctx, case, truth, off, size, got, end):
 
 FILES = [  # (size, k, n, max_segment_size)
     (100, 1, 1, 32), (150, 1, 3, 64), (200, 2, 4, 64), (333, 3, 5, 42), (56, 1, 2, 1000), (700, 3, 10, 128), (1000, 4, 6, 250),
-    (64, 2, 2, 32), (500, 5, 8, 100)]
+    (64, 2, 2, 32), (500, 5, 8, 100), (273, 1, 5, 64)]
 
 
 def file_data(size, salt):
@@ -286,7 +288,102 @@ def restore(g, si, snap):
             write_body(path, body)
 
 
-def run_campaign(ctx, fidx, n_mut, seed):
+def splice_ueb(forged_body, genuine_body):
+    """the share of ANOTHER file (blocks, block hash tree, crypttext hash tree, share hash chain: all mutually
+    consistent, across share numbers too) carrying the GENUINE uri extension block of this file"""
+    _, fs1, v1, _ = parse(forged_body)
+    _, fs2, v2, _ = parse(genuine_body)
+    ln = int.from_bytes(genuine_body[v2["uri_extension"]:v2["uri_extension"] + fs2], "big")
+    ueb = genuine_body[v2["uri_extension"] + fs2:v2["uri_extension"] + fs2 + ln]
+    return forged_body[:v1["uri_extension"]] + ln.to_bytes(fs1, "big") + ueb
+
+
+def run_forgeries(ctx, rt, grid, g, c, cap, si, raw, data, size, k, n, other_by_shnum, fidx, seed, n_forge, lines, impl, lcases):
+    """consistent-forgery family: internally consistent shares of other content (every tree the adversary can
+    recompute is recomputed) with the genuine or a forged UEB, on m = 1..N servers, g = 0..k-1 genuine shares
+    left, several delivery orders, re-reads on the same node"""
+    import random
+    from allmydata import uri
+    rng = random.Random("c02-forgery-%s-%s" % (fidx, seed))
+    keys = sorted(raw)                      # (server, shnum, path), one share per server
+    u = uri.from_string(cap)
+    mode = hashtree_mode()
+    genuine = {t: read_body_raw(raw[t]) for t in keys}
+    for fi in range(n_forge):
+        # full restore
+        for t in g.share_files(si):
+            os.unlink(t[2])
+        variant = rng.choice(["genuine-ueb", "genuine-ueb", "genuine-ueb", "forged-ueb"])
+        placement = rng.choice(["own", "own", "same"])
+        m = rng.choice([1, 2, 3, min(n, k + 2), n, rng.randrange(1, n + 1)])
+        m = max(1, min(m, n))
+        gcount = rng.randrange(0, k) if k > 1 else 0
+        order = list(range(len(keys)))
+        rng.shuffle(order)
+        forged_srv = order[:m]
+        genuine_srv = order[m:m + gcount]
+        same_sh = keys[forged_srv[0]][1]
+        offered = []
+        for idx in forged_srv:
+            t = keys[idx]
+            shnum = same_sh if placement == "same" else t[1]
+            if shnum not in other_by_shnum:
+                continue
+            fb = other_by_shnum[shnum]
+            if variant == "genuine-ueb":
+                fb = splice_ueb(fb, genuine[t])
+            path = os.path.join(os.path.dirname(t[2]), "%d" % shnum)
+            os.makedirs(os.path.dirname(path), exist_ok=True)
+            with open(path, "wb") as f:
+                f.write(raw[t])
+            write_body(path, fb)
+            offered.append((shnum, fb))
+        for idx in genuine_srv:
+            t = keys[idx]
+            os.makedirs(os.path.dirname(t[2]), exist_ok=True)
+            with open(t[2], "wb") as f:
+                f.write(raw[t])
+        rt.policy = rng.choice(["random", "random", "fifo", "lifo"])
+        rt.rng.seed("c02-forgery-order-%s-%s-%s" % (fidx, seed, fi))
+        case = {"kind": "forgery", "file": fidx, "seed": seed, "fi": fi, "variant": variant, "placement": placement,
+                "forged_servers": sorted(forged_srv), "genuine_servers": sorted(genuine_srv), "policy": rt.policy,
+                "mclass": "forgery:%s:%s" % (variant, placement)}
+        node = fresh_node(c, cap)
+        rdc = rng.random()
+        if rdc < 0.7:
+            off, rsize = 0, None
+        else:
+            off = rng.randrange(0, size)
+            rsize = rng.randrange(1, size - off + 1)
+        got, end = do_read(rt, grid, node, off, rsize)
+        check_read(ctx, dict(case, off=off, size=rsize), data, off, rsize, got, end)
+        first = (got, end)
+        # the same node again (its hash trees, dead shares and the finder's state are retained), twice
+        for again in (1, 2):
+            if end in ("hang", "livelock"):
+                break
+            got2, end2 = do_read(rt, grid, node, 0, None)
+            check_read(ctx, dict(case, second_read=again, mclass=case["mclass"] + "+reread"), data, 0, None, got2, end2)
+            end = end2
+        ctx.case(("forgery", fidx, seed, fi))
+        ctx.count("forgery:%s:%s" % (variant, placement))
+        ctx.count("forgery-m:" + ("1" if m == 1 else "2" if m == 2 else "3+"))
+        # the same adversarial share sequence through the Lean chain (k = 1: the block is the segment): every
+        # segment request is offered every forged copy
+        if k == 1 and gcount == 0 and off == 0 and rsize is None and offered and lines is not None:
+            lines.append("dlseq %s %s %d %d %d %d %s" % (mode, hx(u.uri_extension_hash), k, n, size, size,
+                                                         ",".join("%d:%s" % (sh, hx(b)) for sh, b in offered)))
+            impl.append("len=%d end=%s" % (len(first[0]), "done" if first[1] == "ok" else "fail"))
+            lcases.append(case)
+
+
+def read_body_raw(rawbytes):
+    """share body inside raw container bytes (12-byte header, data, 72-byte leases)"""
+    (ver, _unused, nleases) = struct.unpack(">LLL", rawbytes[:12])
+    return rawbytes[12:len(rawbytes) - 72 * nleases]
+
+
+def run_campaign(ctx, fidx, n_mut, seed, n_forge=0, flines=None, fimpl=None, fcases=None):
     import grid
     import random
     from allmydata.immutable import upload
@@ -308,6 +405,7 @@ def run_campaign(ctx, fidx, n_mut, seed):
             res2 = rt.wait(c.upload(upload.Data(file_data(size, fidx + 1000), convergence=conv)))
             si2 = uri.from_string(res2.get_uri()).get_storage_index()
             others["file"] = [read_body(p) for (_, _, p) in g.share_files(si2)]
+            other_by_shnum = {shnum: read_body(p) for (_, shnum, p) in g.share_files(si2)}
             c.encoding_params["max_segment_size"] = max(1, maxseg // 2)
             res3 = rt.wait(c.upload(upload.Data(data, convergence=conv)))
             si3 = uri.from_string(res3.get_uri()).get_storage_index()
@@ -315,6 +413,10 @@ def run_campaign(ctx, fidx, n_mut, seed):
             c.encoding_params["max_segment_size"] = maxseg
             rt.settle()
             keys = sorted(snap)
+            raw = {}
+            for t in keys:
+                with open(t[2], "rb") as f:
+                    raw[t] = f.read()
             # sanity: the untouched file downloads
             node = c.create_node_from_uri(cap)
             got, end = do_read(rt, grid, node, 0, None)
@@ -388,6 +490,11 @@ def run_campaign(ctx, fidx, n_mut, seed):
                 ctx.count("targets:" + ("1" if len(targets) == 1 else "all" if len(targets) == len(keys) else "some"))
                 if flaky:
                     ctx.count("flaky-server")
+            for w in g.wrappers.values():
+                w.fault = None
+            if n_forge:
+                run_forgeries(ctx, rt, grid, g, c, cap, si, raw, data, size, k, n, other_by_shnum, fidx, seed, n_forge,
+                              flines, fimpl, fcases)
         finally:
             for w in g.wrappers.values():
                 w.fault = None
@@ -522,10 +629,13 @@ def run(ctx):
     common.setup_impl_path()
     import grid  # noqa: F401
     from allmydata.util import log as tlog  # noqa: F401
+    flines, fimpl, fcases = [], [], []
     if ctx.replay and isinstance(ctx.replay.get("case"), dict):
         cs = ctx.replay["case"]
         if cs.get("kind") == "k1":
             run_k1(ctx, cs["file"], cs["mi"] + 1, cs["seed"])
+        elif cs.get("kind") == "forgery":
+            run_campaign(ctx, cs["file"], 0, cs["seed"], cs["fi"] + 1, flines, fimpl, fcases)
         elif "file" in cs:
             run_campaign(ctx, cs["file"], cs.get("mi", 0) + 1, cs["seed"])
         return
@@ -533,6 +643,14 @@ def run(ctx):
     nfiles = ctx.budget(12, 60)
     per = ctx.budget(70, 220)
     for i in range(nfiles):
-        run_campaign(ctx, i, per, ctx.rng.randrange(1 << 30))
+        run_campaign(ctx, i, per, ctx.rng.randrange(1 << 30), ctx.budget(40, 150), flines, fimpl, fcases)
+    outs = ctx.model(flines)
+    if outs is not None:
+        norm = []
+        for o in outs:
+            pr = dict(x.split("=", 1) for x in o.split(" ") if "=" in x)
+            norm.append("len=%s end=%s" % (pr.get("len"), "done" if pr.get("end") == "done" else "fail") if pr else o)
+        ctx.compare("whole download of a k=1 file offered only consistently forged shares (m copies): bytes delivered and "
+                    "done/failed, real downloader vs the Lean chain on the same share sequence", fcases, fimpl, norm)
     for i in range(ctx.budget(6, 30)):
         run_k1(ctx, i, ctx.budget(60, 200), ctx.rng.randrange(1 << 30))
